@@ -30,7 +30,11 @@ open Glom.C20
     `_DEFAULT_SCOPE.new_child` with a dict literal whose containers are fresh (`[]`,
     `ScopeVars({}, {})`), `_glom` gives every evaluation step a fresh child dict with a
     fresh `CHILD_ERRORS` list; the registry methods on the evaluation path write only
-    `_type_cache`. -/
+    `_type_cache`; `_BBRepr.repr1` keys its guard on the shared instance by `(id(x), get_ident())`;
+    and re-entry with a scope handed in (`resetsCover`): AFTER merging that scope, `Spec.glom` and
+    `glom()` both drop or rebind every bookkeeping key the exception handler of `_glom` writes or
+    tests (`CHILD_ERRORS`, `CUR_ERROR`, `NO_PYFRAME`) and the parent link `LAST_CHILD_SCOPE`,
+    `CHILD_ERRORS` to a fresh list, and rebind the in-place-extended `Path` list to a copy. -/
 theorem c20_facts_wf : genFacts.WF = true := by decide
 
 /-- **Cache invariant under every schedule (`c20_cache_inv`).**  Any number of evaluations,
@@ -103,6 +107,108 @@ theorem c20_frames_any_ops (base : Nat) (ops : List SOp) (h : SHeap) (chain : Li
     (hc : ∀ a ∈ chain.dropLast, base ≤ a) :
     ∀ a, a < base → (execOps h chain ops).1[a]? = h[a]? :=
   (execOps_framed base ops h chain hb hc).old
+
+/-! ### re-entry with the scope of the running call handed in
+
+`Spec(inner).glom(t, scope=scope)` and `glom(t, inner, scope=scope)` from inside a custom spec's
+`glomit`: the per-call error bookkeeping (`Glom/Model/C20Reentry.lean`) is heap state, and the
+`CHILD_ERRORS` list is an object that a flattened copy of the scope shares with the caller. -/
+
+open Glom.C20.Re in
+/-- **Non-interference of a re-entrant call that resets the bookkeeping (`c20_reentry_frames`).**
+    Any heap of scope maps and failed-branch lists `st` (no assumption: also mid-evaluation, also
+    ill-formed), any scope `a` of it, any way `how` of starting the inner call that covers the keys
+    that matter (`glom(t, inner)`; or the scope of `a` handed in and `CHILD_ERRORS` rebound to a
+    fresh list and `NO_PYFRAME` dropped), any inner spec — with children, Coalesces, tuple chains
+    and further re-entries to any depth, each covering too: after the inner call EVERY scope map
+    and EVERY failed-branch list that existed before it is exactly what it was, and the inner
+    call's outcome is its denotation, the outcome it has in any scope (in particular alone). -/
+theorem c20_reentry_frames (st : BSt) (a : Nat) (how : How) (inner : RSpec)
+    (hhow : how.covers = true) (hin : inner.covered = true) :
+    (∀ i, i < st.frames.length →
+        (eval inner (start st a how).1 (start st a how).2).1.frames[i]? = st.frames[i]?) ∧
+    (∀ l, l < st.lists.length →
+        (eval inner (start st a how).1 (start st a how).2).1.lists[l]? = st.lists[l]?) ∧
+    (eval inner (start st a how).1 (start st a how).2).2 = denote inner := by
+  have hown : Own st.frames.length st.lists.length st :=
+    ⟨Nat.le_refl _, Nat.le_refl _, fun b f hb hf => by
+      have := (List.getElem?_eq_some_iff.mp hf).1; omega⟩
+  obtain ⟨s1, s2, s3⟩ := step_start hown a how hhow
+  have h := eval_owned st.frames.length st.lists.length inner _ _ hin s1.own s2 s3
+  exact ⟨fun i hi => (s1.same.trans h.1.same).fr i hi, fun l hl => (s1.same.trans h.1.same).ls l hl, h.2⟩
+
+open Glom.C20.Re in
+/-- … for the resets the CURRENT SOURCE of `Spec.glom` and of `glom()` performs (extracted facts) -/
+theorem c20_reentry_frames_extracted (st : BSt) (a : Nat) (inner : RSpec) (hin : inner.covered = true)
+    (how : How) (hhow : how = .handed (resetsOf genFacts.specGlomResets) ∨ how = .handed (resetsOf genFacts.glomResets)) :
+    (∀ i, i < st.frames.length →
+        (eval inner (start st a how).1 (start st a how).2).1.frames[i]? = st.frames[i]?) ∧
+    (∀ l, l < st.lists.length →
+        (eval inner (start st a how).1 (start st a how).2).1.lists[l]? = st.lists[l]?) := by
+  have hc : how.covers = true := by
+    rcases hhow with h | h <;> subst h <;> decide
+  exact ⟨(c20_reentry_frames st a how inner hc hin).1, (c20_reentry_frames st a how inner hc hin).2.1⟩
+
+section reentryExamples
+open Glom.C20.Re
+
+/-- `{'x': Re}` where `Re.glomit` makes the inner call `'missing'` (fails, caught) and then
+    evaluates `'outer.om'` (fails): the demo of the seeded change C20-s5, depth 1 -/
+private def demo1 (h : How) : RSpec :=
+  .sub 1 (.reent 2 h (.leaf 3 (.error (.raised 1))) (.leaf 4 (.error (.raised 2))))
+
+/-- `Coalesce(Re(…, after = Re2(…)), 'zz')`: depth 2 under an outer Coalesce -/
+private def demo2 (h : How) : RSpec :=
+  .coal 1 (.orElse (.reent 2 h (.leaf 3 (.error (.raised 1)))
+      (.reent 4 h (.leaf 5 (.error (.raised 2))) (.leaf 6 (.error (.raised 3)))))
+    (.leaf 7 (.error (.raised 4))))
+
+/-- with `CHILD_ERRORS` rebound and `NO_PYFRAME` dropped the whole call — error and rendered
+    trace — is what it is with the inner call made in isolation … -/
+theorem c20_reentry_reset_examples :
+    runCall (demo1 (.handed ⟨true, true⟩)) = runCall (demo1 .isolated) ∧
+    runCall (demo2 (.handed ⟨true, true⟩)) = runCall (demo2 .isolated) ∧
+    runCall (demo1 .isolated) = .err (.raised 2) [(0, .spec 1), (0, .spec 2), (0, .spec 4)] := by
+  decide +kernel
+
+/-- **Counter-example: `CHILD_ERRORS` not rebound (the seeded change C20-s5, and `glom()` before
+    /repo 6021378).**  The inner call's failed scope is appended to the CALLER's list: the list of
+    the scope that made the call is no longer what it was, and the trace of the outer call grows a
+    spurious branch showing the finished inner call (`+ Spec: Re` / `'missing'` / its error). -/
+theorem c20_reentry_shared_list_counterexample :
+    runCall (demo1 (.handed ⟨false, true⟩)) =
+      .err (.raised 2) [(0, .spec 1), (0, .branching 2), (1, .spec 3), (1, .error (.raised 1)), (1, .spec 4)] ∧
+    runCall (demo1 (.handed ⟨false, true⟩)) ≠ runCall (demo1 .isolated) ∧
+    runCall (demo2 (.handed ⟨false, true⟩)) ≠ runCall (demo2 .isolated) ∧
+    (let s1 := enter (newRoot ⟨[], []⟩).1 0 2
+     let s0 := start s1.1 s1.2 (.handed ⟨false, true⟩)
+     (eval (.leaf 3 (.error (.raised 1))) s0.1 s0.2).1.lists[1]? ≠ s1.1.lists[1]?) := by
+  decide +kernel
+
+/-- **Counter-example: `NO_PYFRAME` not dropped (F16, /repo 94cf76d).**  A re-entry made from a
+    later link of a tuple chain, `(T, First(len))`: the copy of the scope carries the marker of the
+    chain, the handler of the failing inner evaluation walks up from a one-map ChainMap, and the
+    inner call ends with IndexError instead of its own error. -/
+theorem c20_reentry_marker_counterexample :
+    let s1 := enter (newRoot ⟨[], []⟩).1 0 1                   -- the tuple
+    let s2 := eval (.leaf 2 (.ok 0)) s1.1 s1.2                 -- its first link
+    let s3 := chainChild s2.1 s1.2
+    let s4 := enter s3.1 s3.2 3                                -- First(len), under the chained scope
+    (let s0 := start s4.1 s4.2 (.handed ⟨true, false⟩)
+     errOf (eval (.leaf 4 (.error (.raised 1))) s0.1 s0.2).2 = some .indexError) ∧
+    (let s0 := start s4.1 s4.2 (.handed ⟨true, true⟩)
+     errOf (eval (.leaf 4 (.error (.raised 1))) s0.1 s0.2).2 = some (.raised 1)) := by
+  decide +kernel
+
+-- the hypotheses of `c20_reentry_frames` are satisfiable by a non-trivial input: a covering
+-- re-entry whose inner spec has a Coalesce, a chain and a further re-entry
+example : (RSpec.reent 1 (.handed ⟨true, true⟩)
+    (.coal 2 (.orElse (.sub 3 (.andThen (.leaf 4 (.ok 1)) (.reent 5 .isolated (.leaf 6 (.error (.raised 1))) (.leaf 7 (.error (.raised 2))))))
+      (.pure 0))) (.leaf 8 (.ok 2))).covered = true := by decide
+example : (How.handed (resetsOf genFacts.specGlomResets)).covers = true ∧
+    (How.handed (resetsOf genFacts.glomResets)).covers = true := by decide
+
+end reentryExamples
 
 /-- Why "no registration while calls run" is an assumption: with a `register` (which rebinds
     `_type_cache = {}`) scheduled between the store and the final lookup of `get_handler`, the
